@@ -85,7 +85,7 @@ def _worker(spec):
     remaining = list(jobs); restarts = 0
     allrecs = []
     env = {'ASAN_OPTIONS': 'abort_on_error=0:detect_leaks=1:halt_on_error=1:allocator_may_return_null=1:detect_stack_use_after_return=0', 'UBSAN_OPTIONS': 'print_stacktrace=1:halt_on_error=1'}
-    while remaining and restarts < 6:
+    while remaining and restarts < 4:
         rc, recs, _, meta, err = eg.run_jobs(exe, remaining, timeout=spec.get('timeout', 900), env=env)
         allrecs += recs
         done = {(r.gi, r.idx, r.mode) for r in recs}
